@@ -1774,7 +1774,10 @@ func (r *replicateChannelHandler) handlePack(forward bool, pack *msgstream.MsgPa
 	}
 	GetTSManager().UnsafeUpdatePackTS(tsManagerChannelKey, newPack.BeginTs, func(newTS uint64) (uint64, bool) {
 		reset := resetMsgPackTimestamp(newPack, newTS)
-		generateTS = newPack.EndTs
+		if reset {
+			// only a re-timed pack ends above the channel clock; a pack without messages keeps its source time
+			generateTS = newPack.EndTs
+		}
 		return newPack.EndTs, reset
 	})
 
